@@ -42,6 +42,13 @@ package db
 //@ ghost bsize (Array Int Int)
 //@ ghost btarget (Array Int Int)
 
+//@ func Database.NewBatch
+//@   option trusted interface
+//@   ensures typeid(result) != 0 && ref(result) != 0 && @select(ghost(btarget), ref(result)) == ref(this) && @select(ghost(bsize), ref(result)) == 0
+//@   ensures forall k Bytes :: !@select(@select(ghost(bpend), ref(result)), k)
+//@   ensures forall b Int :: b != ref(result) ==> @select(ghost(bpend), b) == @select(old(ghost(bpend)), b) && @select(ghost(btarget), b) == @select(old(ghost(btarget)), b) && @select(ghost(bsize), b) == @select(old(ghost(bsize)), b)
+//@   modifies ghost(bpend), ghost(bsize), ghost(btarget)
+
 //@ func Batch.Put
 //@   option trusted interface
 //@   ensures result == nil
